@@ -10,7 +10,7 @@ git -C /repo worktree add -q --detach "$wt" HEAD || exit 2
 cleanup() { git -C /repo worktree remove --force "$wt" >/dev/null 2>&1; rm -rf "$wt"; }
 trap cleanup EXIT
 demo=$(python3 -c "import json,sys;print(json.load(open('$src/meta.json'))['demo'])")
-run=$(echo "$demo" | grep -o -- '-run [A-Za-z0-9_|]*' | head -1 | awk '{print $2}')
+run=$(echo "$demo" | tr -d "'\"" | grep -o -- '-run [A-Za-z0-9_|]*' | head -1 | awk '{print $2}')
 pkg=$(echo "$demo" | grep -o -- ' \./[a-z/_]*' | head -1 | tr -d ' ')
 [ -z "$run" ] || [ -z "$pkg" ] && { echo "$name: cannot parse demo command"; exit 2; }
 export GOFLAGS=-mod=mod
